@@ -131,11 +131,11 @@ theorem supply_changes_only_in_mint_begin_blocker :
       [ ("mint", "x/mint/keeper.Keeper.MintCoins", "MintCoins",
           ["x/mint.AppModule.BeginBlock", "x/mint.BeginBlocker"]) ] := by decide
 
-/-- x/mint's begin-blocker is installed, and the installed order is the one of `orderBeginBlockers()`. -/
+/-- x/mint's begin-blocker is installed, and `beginBlockers` is the very list that the `SetOrderBeginBlockers` call installs (the table is taken from that call). -/
 theorem mint_is_a_begin_blocker :
     Sge.Gen.Consts.beginBlockers.contains "mint" = true ∧
       (Sge.Gen.Consts.orderCalls.map (fun c => (c.1, c.2.1))).contains
-        ("SetOrderBeginBlockers", "orderBeginBlockers()...") = true := by decide
+        ("SetOrderBeginBlockers", "<list of module names returned by a function of package app>...") = true := by decide
 
 /-- BlocksPerYear = 365.25 days of 5-second blocks. -/
 theorem blocks_per_year : Sge.Gen.Consts.mint_BlocksPerYear = 6311520 := by decide
